@@ -22,6 +22,9 @@ REQUIRED_THEOREMS = ["execute_depends_on_persistent_only", "runSnippet_depends_o
 # the models were written against (Props/StateInventory)
 THEOREM_MODULES.append("Yarel.Props.StateInventory")
 REQUIRED_THEOREMS += ['state_of_interpreter_and_fiber']
+# who writes the state the mechanism models are about: the set of write sites per group of fields, regenerated on every run (Props/StateWrites)
+THEOREM_MODULES.append("Yarel.Props.StateWrites")
+REQUIRED_THEOREMS += ['writers_of_reuse_state']
 LEVEL = "proof"
 ASSUMPTIONS = [
     "residue = (exception-in-flight flag, class definition in progress, active fiber's stack/frames/handlers, fiber designators) as "
